@@ -448,6 +448,7 @@ type verdict struct {
 	err      string
 	panicked bool
 	data     []libshare.Share // shares exposed by the accepted container
+	rows     [][]libshare.Share // nd only: shares per entry
 }
 
 // realVerify decodes with the real codec and runs the real verifier, exactly as the getters do.
@@ -505,7 +506,11 @@ func realVerify(req request, roots *share.AxisRoots, enc encoding) (v verdict) {
 		if err := nd.Verify(roots, square.Namespace(req.Ns)); err != nil {
 			return verdict{err: err.Error()}
 		}
-		return verdict{accepted: true, data: nd.Flatten()}
+		rows := make([][]libshare.Share, len(nd))
+		for i := range nd {
+			rows[i] = nd[i].Shares
+		}
+		return verdict{accepted: true, data: nd.Flatten(), rows: rows}
 	case "range":
 		var rng shwap.RangeNamespaceData
 		if enc.codec == "stream" {
@@ -961,6 +966,20 @@ func runCase(rep *vh.Report, prop string, tc *tcase, st *stats, kindCount map[st
 				fmt.Sprintf("real %s verifier accepted a response whose %d shares differ from the %d committed shares of %+v (codec %s, w=%d, forgery %s; model verdict acc=%v)",
 					tc.Req.K, len(v.data), len(want), tc.Req, enc.codec, tc.W, sig, tc.Acc), replay)
 			continue
+		}
+		// C02 shape clause: one entry per covering row, each with exactly that row's shares of the namespace
+		if v.accepted && tc.Req.K == "nd" {
+			cover := sq.RowsCovering(tc.Req.Ns)
+			okShape := len(cover) == len(v.rows)
+			for i := 0; okShape && i < len(cover); i++ {
+				okShape = sameShares(v.rows[i], committed(sq, request{K: "rnd", I: cover[i], Ns: tc.Req.Ns}))
+			}
+			if !okShape {
+				rep.Violate(fmt.Sprintf("%s/nd/accepted-wrong-row-structure:%s", prop, sig),
+					fmt.Sprintf("real NamespaceData.Verify accepted %d entries for namespace %d whose per-row shares are not those of the covering rows %v (w=%d ns=%v, forgery %s)",
+						len(v.rows), tc.Req.Ns, cover, tc.W, tc.Ns, sig), replay)
+				continue
+			}
 		}
 		// (iii) honest responses verify, and are what the real producers return
 		if tc.Hon {
